@@ -251,17 +251,26 @@ func TestSenders(t *testing.T) {
 	}
 	r.Rule(ruleText)
 	r.Rule("simultaneous senders: 2..8 connections (HTTP decoders that answer, other decoders and undecoded ports that close) get their pushed first flight back to back with 8..40 one-byte segments of 1..3 other connections, without barriers, child with GOMAXPROCS >= 4, repeated for 12 (quick) / 30 (thorough) rounds per scenario; every record of the transmit ring is decoded strictly and every injected segment must have its acknowledgement; non-trivial = >= 2 answering connections in the burst")
+	box := &cl.Infra{}
 	r.Rapid(t, "TestSenders", r.Pick(10, 120), func(rt *rapid.T) {
+		if box.Err() != nil {
+			rapid.Bool().Draw(rt, "skipped-after-infra-error")
+			return
+		}
 		sc := genSenders(rt, r.Pick(12, 30))
 		r.Case(fmt.Sprintf("senders/pushers=%d/background=%d", len(sc.Pushers), len(sc.Background)), vlib.JSON(sc), func() interface{} { return sc })
 		verr, infra := checkSenders(r, l, sc)
 		if infra != nil {
-			rt.Fatalf("%v", infra)
+			box.Set(infra)
+			return
 		}
 		if verr != nil {
 			r.Fail(rt, "TestSenders", sc, "%v", verr)
 		}
 	})
+	if e := box.Err(); e != nil {
+		t.Fatalf("infra: %v", e)
+	}
 }
 
 // TestReconnect: fixed histories - a completed connection (listener closes first, client
